@@ -1,9 +1,104 @@
-(* Props/C02.v — placeholder while the harness is being brought up (replaced below). *)
-From PM.theories Require Import Base Struct PduCls PduSpec Pdu.
+(* Props/C02.v — Encode/decode are mutual inverses and encoding is pure.
+   ONLY statements; proofs in proofs/Pdu_c02_proofs.v (on top of the C01 lemmas).
+   Objects are values of [Pdu.obj]; a method that assigns attributes returns the new object:
+   [encode_st o = (result, o')], [decode_into o data = Ok o'].  [fresh_like o] is a brand-new
+   instance of o's class.  [abs o = Some m]: o stands for spec message m with every field within its
+   wire width; field identity is stated on these messages ([msg_matches]: equal fields, read-bits
+   lists up to the zero padding the wire carries).  All theorems quantify over all field values
+   and list lengths. *)
+From PM.theories Require Import Base Struct PduCls PduSpec Pdu CorrPdu.
 From PM.Generated Require Import GenPdu.
+From PM.proofs Require Import Pdu_proofs Pdu_more_proofs Pdu_dec_proofs Pdu_c02_proofs.
+Open Scope string_scope.
 Open Scope list_scope.
 Open Scope Z_scope.
 
+(* --- the generated encode and decode layouts of the fixed-format classes are symmetric -------- *)
 Theorem C02_layouts_symmetric : enc_layouts = dec_layouts.
 Proof. reflexivity. Qed.
 Print Assumptions C02_layouts_symmetric.
+
+(* --- round trip: decode (bytes([fc]) + encode()) has the same fields, for every class that is in
+       the conforming lists of C01 (requests through the server decoder, responses and exception
+       responses through the client decoder) --------------------------------------------------- *)
+Theorem C02_roundtrip : forall o m,
+  abs o = Some m -> mem_cls (class_of o) conforming_encode = true -> conforming_decode m = true ->
+  exists b o' d, py_pdu o = Ok b /\ py_decode (msg_is_request m) b = Ok o' /\ abs o' = Some d /\ msg_matches m d = true.
+Proof. exact roundtrip. Qed.
+Print Assumptions C02_roundtrip.
+
+(* --- encoding is pure: EVERY class, every object: a successful encode leaves an object on which
+       encode returns the same bytes and which it does not change any more ---------------------- *)
+Theorem C02_encode_pure : forall o b o1, encode_st o = (Ok b, o1) -> encode_st o1 = (Ok b, o1).
+Proof. exact encode_pure. Qed.
+Print Assumptions C02_encode_pure.
+
+(* ... and encode assigns nothing at all except two derived attributes *)
+Theorem C02_encode_state : forall o b o1, encode_st o = (Ok b, o1) ->
+  mem_cls (class_of o) [WriteMultipleCoilsRequest; ReadDeviceInformationResponse] = false -> o1 = o.
+Proof. exact encode_state. Qed.
+Print Assumptions C02_encode_state.
+
+Theorem C02_encode_state_coils : forall a vals bc b o1, encode_st (OWriteCoilsReq a vals bc) = (Ok b, o1) ->
+  o1 = OWriteCoilsReq a vals ((zlen vals + 7) / 8).
+Proof. exact encode_state_coils. Qed.
+Print Assumptions C02_encode_state_coils.
+
+(* --- re-encoding a freshly decoded object yields the bytes that were decoded; hence
+       decode . encode . decode . encode = decode . encode ------------------------------------- *)
+Theorem C02_fixed_point : forall m, spec_wf m = true -> conforming_decode m = true ->
+  exists o', py_decode (msg_is_request m) (spec_pdu m) = Ok o' /\ py_pdu o' = Ok (spec_pdu m).
+Proof. exact reencode. Qed.
+Print Assumptions C02_fixed_point.
+
+(* --- decoding into a used object leaves exactly what decoding into a new instance leaves, for
+       every class except ReadWriteMultipleRegistersResponse ---------------------------------- *)
+Theorem C02_decode_fresh : forall o data o',
+  wf_shape o = true -> class_of o <> ReadWriteMultipleRegistersResponse ->
+  decode_into o data = Ok o' ->
+  exists f, decode_into (fresh_like o) data = Ok f /\ blank f = blank o'.
+Proof. exact decode_fresh. Qed.
+Print Assumptions C02_decode_fresh.
+
+(* --- where the pinned code violates the property ------------------------------------------------ *)
+Definition C02_full_statement : Prop :=
+  (forall o m, abs o = Some m ->
+     exists b o' d, py_pdu o = Ok b /\ py_decode (msg_is_request m) b = Ok o' /\ abs o' = Some d /\ msg_matches m d = true) /\
+  (forall o data o', wf_shape o = true -> decode_into o data = Ok o' ->
+     exists f, decode_into (fresh_like o) data = Ok f /\ blank f = blank o').
+
+Theorem C02_decode_fresh_rwm_refuted :
+  exists o data o', wf_shape o = true /\ decode_into o data = Ok o' /\
+    forall f, decode_into (fresh_like o) data = Ok f -> blank f <> blank o'.
+Proof. exact decode_fresh_rwm_refuted. Qed.
+Print Assumptions C02_decode_fresh_rwm_refuted.
+
+Theorem C02_fifo_roundtrip_refuted :
+  exists o b o', class_of o = ReadFifoQueueResponse /\ py_pdu o = Ok b /\ py_decode false b = Ok o' /\ obj_match o o' = false.
+Proof. exact fifo_roundtrip_refuted. Qed.
+Print Assumptions C02_fifo_roundtrip_refuted.
+
+Theorem C02_file_response_roundtrip_refuted :
+  exists o b o', class_of o = ReadFileRecordResponse /\ py_pdu o = Ok b /\ py_decode false b = Ok o' /\ obj_match o o' = false.
+Proof. exact file_response_roundtrip_refuted. Qed.
+Print Assumptions C02_file_response_roundtrip_refuted.
+
+Theorem C02_slave_id_roundtrip_refuted :
+  exists o b o', class_of o = ReportSlaveIdResponse /\ py_pdu o = Ok b /\ py_decode false b = Ok o' /\ obj_match o o' = false.
+Proof. exact slave_id_roundtrip_refuted. Qed.
+Print Assumptions C02_slave_id_roundtrip_refuted.
+
+Theorem C02_diag_request_roundtrip_refuted :
+  exists o b, class_of o = ReturnQueryDataRequest /\ py_pdu o = Ok b /\ py_decode true b = Raise StructError.
+Proof. exact diag_request_roundtrip_refuted. Qed.
+Print Assumptions C02_diag_request_roundtrip_refuted.
+
+(* --- the hypotheses are satisfiable by non-trivial values --------------------------------------- *)
+Example C02_nonvacuous :
+  let o := ORWReq 3 6 14 [10; 11; 65535] 3 6 in
+  abs o = Some (MReadWriteRegsReq 3 6 14 [10; 11; 65535]) /\
+  mem_cls (class_of o) conforming_encode = true /\ conforming_decode (MReadWriteRegsReq 3 6 14 [10; 11; 65535]) = true /\
+  py_decode true [23; 0; 3; 0; 6; 0; 14; 0; 3; 6; 0; 10; 0; 11; 255; 255]%N = Ok o /\
+  wf_shape o = true /\
+  encode_st (OWriteCoilsReq 1 [true; true; false] 77) = (Ok [0; 1; 0; 3; 1; 3]%N, OWriteCoilsReq 1 [true; true; false] 1).
+Proof. repeat split; vm_compute; reflexivity. Qed.
